@@ -18,7 +18,7 @@ Local Open Scope Z_scope.
      RETRY_NEXT_HOST cl-> the same with a next-host retry;
      RETHROW           -> the request fails with that server error, nothing is scheduled;
      IGNORE            -> the request completes with an empty result, nothing is scheduled. *)
-Theorem C16_consulted_once_and_obeyed : forall c s i h k tag, open_query s i h ->
+Theorem C16_consulted_once_and_obeyed : forall c s i h k tag, open_query s i h -> inline_retry c = false ->
   let '(d, dcl) := pol c (nconsult s) k tag (retries s) (clarg s k) in
   exists s1, step c s (Resp i (RRetryable k tag))
              = (s1, [Consult (nconsult s) h k tag (retries s) (clarg s k) d dcl; ErrSet h (EResp k tag)])
@@ -48,14 +48,14 @@ Print Assumptions C16_consulted_only_on_failure.
 (* RETRY cl: when the executor runs the retry (the request has not failed meanwhile, h's pool is usable), exactly one
    message is sent: the original request, to the same host h, at the level the policy chose *)
 Theorem C16_obeys_retry : forall c s i h k tag dcl s1 ev1 s2 ev2, open_query s i h -> fin_exc s = None ->
-  session_shut s = false ->
+  session_shut s = false -> inline_retry c = false ->
   pol c (nconsult s) k tag (retries s) (clarg s k) = (DRetry, dcl) ->
   step c s (Resp i (RRetryable k tag)) = (s1, ev1) -> pool_of s h = PHealthy ->
   step c s1 (Run (length (queue s))) = (s2, ev2) ->
   ev2 = [Sent h (MOrig (match dcl with Some x => Some x | None => msg_cl s end)) CRetrySame] /\ plan s2 = plan s.
 Proof.
-  intros c s i h k tag dcl s1 ev1 s2 ev2 O E Sh P S1 Hp S2.
-  pose proof (retryable_step c s i h k tag O) as R. rewrite P in R. destruct R as (s1' & R1 & _ & _ & _ & Rp & Rpo & Rd).
+  intros c s i h k tag dcl s1 ev1 s2 ev2 O E Sh Inl P S1 Hp S2.
+  pose proof (retryable_step c s i h k tag O Inl) as R. rewrite P in R. destruct R as (s1' & R1 & _ & _ & _ & Rp & Rpo & Rd).
   rewrite R1 in S1. inversion S1; subst s1' ev1. destruct Rd as (_ & Rq & _). destruct (Rq E Sh) as (_ & Re & Q & C).
   destruct (run_retry_same c s1 (length (queue s)) h) as (s2' & R2 & _ & _ & Rp2).
   - rewrite Q. apply nth_error_app_last.
@@ -68,7 +68,7 @@ Print Assumptions C16_obeys_retry.
 (* RETRY_NEXT_HOST cl: the executor task is exactly one send_request over the plan as it was, at the chosen level: by
    C17_order it goes to the first usable host of the remaining plan, or reports NoHostAvailable *)
 Theorem C16_obeys_next_host : forall c s i h k tag dcl s1 ev1 s2 ev2, open_query s i h -> fin_exc s = None ->
-  session_shut s = false ->
+  session_shut s = false -> inline_retry c = false ->
   pol c (nconsult s) k tag (retries s) (clarg s k) = (DNextHost, dcl) ->
   step c s (Resp i (RRetryable k tag)) = (s1, ev1) ->
   step c s1 (Run (length (queue s))) = (s2, ev2) ->
@@ -76,8 +76,8 @@ Theorem C16_obeys_next_host : forall c s i h k tag dcl s1 ev1 s2 ev2, open_query
               msg_cl s1' = match dcl with Some x => Some x | None => msg_cl s end /\
               send_request s1' true = (s2, ev2) /\ walked s1' (plan s) true s2 ev2.
 Proof.
-  intros c s i h k tag dcl s1 ev1 s2 ev2 O E Sh P S1 S2.
-  pose proof (retryable_step c s i h k tag O) as R. rewrite P in R. destruct R as (s1' & R1 & _ & _ & _ & Rp & Rpo & Rd).
+  intros c s i h k tag dcl s1 ev1 s2 ev2 O E Sh Inl P S1 S2.
+  pose proof (retryable_step c s i h k tag O Inl) as R. rewrite P in R. destruct R as (s1' & R1 & _ & _ & _ & Rp & Rpo & Rd).
   rewrite R1 in S1. inversion S1; subst s1' ev1. destruct Rd as (_ & Rq & _). destruct (Rq E Sh) as (_ & Re & Q & C).
   rewrite (run_retry_next c s1 (length (queue s)) h) in S2; [|rewrite Q; apply nth_error_app_last|congruence].
   exists (set_queue s1 (remove_nth (length (queue s)) (queue s1))).
@@ -121,7 +121,7 @@ Print Assumptions C16_non_idempotent_never_speculative.
 (* non-vacuity: read timeout from host 0 answered RETRY at consistency 5, then an overloaded error answered
    RETRY_NEXT_HOST, then unavailable answered RETHROW; retry_num goes 0, 1, 2 *)
 Example C16_nonvacuous :
-  let c := {| pol := scripted [(DRetry, Some 5); (DNextHost, None); (DRethrow, None)]; fut_ps := None; known := []; pv := 4; tgt := None |} in
+  let c := {| pol := scripted [(DRetry, Some 5); (DNextHost, None); (DRethrow, None)]; fut_ps := None; known := []; pv := 4; tgt := None; inline_retry := false |} in
   let s0 := init [0; 1] None [(0, PHealthy); (1, PHealthy)] (Some 1) false true 2 None in
   let '(s, evs) := exec c s0 [Start; Resp 0%nat (RRetryable KReadTimeout 10); Run 0%nat;
                               Resp 1%nat (RRetryable KOverloaded 11); Run 0%nat; Resp 2%nat (RRetryable KUnavailable 12)] in
